@@ -26,7 +26,7 @@ pub fn def() -> PropDef {
                chunk, unlimited}, maximal item size in {64 B, 1 KiB, 64 KiB}, content seed) drive an on-the-fly \
                generated stream (never materialised; DIMACS streams come in three shapes: clauses with occasional \
                comments, a header whose declared clause count is reached after 100 clauses followed only by comment \
-               and blank lines, one clause spread over the whole stream with comment lines in between) of N bytes with N >= 64 x bound through the parser while a \
+               and blank lines, one clause spread over the whole stream with comment lines in between, fixed-width 16-byte clause lines behind a 15-byte comment so that power-of-two reads always end inside a token) of N bytes with N >= 64 x bound through the parser while a \
                counting global allocator records the peak live heap. Oracle: peak <= 16 x chunk + 16 x max_item + \
                64 KiB, and the parse ends cleanly. Non-trivial: N >= 64 x bound and items of the maximal size \
                occurred (every 500th item is padded to it). evaluations = configurations run.",
@@ -92,6 +92,15 @@ fn item(cfg: &Config, idx: u64, out: &mut Vec<u8>) {
                     out.push(b' ' + (mix(r, out.len() as u64) % 90) as u8);
                 }
                 out.push(b'\n');
+            }
+        }
+        ParserId::Cnf if cfg.shape == 3 => {
+            // fixed-width lines: a 15-byte comment, then 16-byte clauses, so that with power-of-two
+            // read sizes every read ends inside a token
+            if idx == 0 {
+                out.extend_from_slice(b"c 345678901234\n");
+            } else {
+                write!(out, "{:04} -{:04} {:02} 0\n", 1000 + r % 9000, 1000 + (r >> 16) % 9000, 10 + (r >> 32) % 90).unwrap();
             }
         }
         ParserId::Cnf | ParserId::Wcnf | ParserId::Gcnf if cfg.shape == 2 => {
@@ -306,6 +315,7 @@ pub fn check(cfg: &Config, obs: &mut Obs) -> CheckResult {
     let expect_items = match (cfg.parser.is_dimacs(), cfg.shape) {
         (true, 1) => 101, // header + the declared 100 clauses
         (true, 2) => 1,   // the one long clause
+        (true, 3) => items - 1, // the first line is a comment
         _ => items + if cfg.parser.is_aiger() { 1 } else { 0 },
     };
     obs.class(format!("shape/{}", if cfg.parser.is_dimacs() { cfg.shape } else { 0 }));
@@ -360,7 +370,7 @@ fn config_strategy(quick: bool) -> impl Strategy<Value = Config> {
         ]),
         proptest::sample::select(vec![64usize, 1 << 10, 64 << 10]),
         any::<u64>(),
-        prop_oneof![2 => Just(0u8), 1 => Just(1u8), 1 => Just(2u8)],
+        prop_oneof![2 => Just(0u8), 1 => Just(1u8), 1 => Just(2u8), 1 => Just(3u8)],
     )
         .prop_map(move |(parser, chunk, read, max_item, seed, shape)| {
             let max_item = if matches!(parser, ParserId::Aag | ParserId::Aig) { 64 } else { max_item };
@@ -371,7 +381,12 @@ fn config_strategy(quick: bool) -> impl Strategy<Value = Config> {
                 max_item,
                 seed,
                 n: 0,
-                shape: if parser.is_dimacs() { shape } else { 0 },
+                shape: match (parser, shape) {
+                    (ParserId::Cnf, s) => s,
+                    (p, 3) if p.is_dimacs() => 0,
+                    (p, s) if p.is_dimacs() => s,
+                    _ => 0,
+                },
             };
             let mut n = 64 * bound(&cfg) as u64 + (1 << 20);
             if quick {
